@@ -1,9 +1,10 @@
 (* C02 -- Collections hold what the history says, one dataset per type + data ID.
-   Statements only; every proof is `exact <lemma>` from Proofs/RegistryProofs.v.
+   Statements only; every proof is `exact <lemma>` from Proofs/RegistryProofs.v / RegistryProofsX1-4.v.
    `run h` is the state after the history h (fold_left of `step` from the empty registry); histories range over
    ALL lists of operations with arbitrary (also invalid) arguments. *)
 From Coq Require Import NArith List Bool Lia.
-From V Require Import Model.Registry Proofs.RegistryProofs.
+From V Require Import Model.Registry Model.RegistryAbs Proofs.RegistryProofs Proofs.RegistryProofsX1 Proofs.RegistryProofsX2
+  Proofs.RegistryProofsX3 Proofs.RegistryProofsX4.
 Import ListNotations.
 Open Scope N_scope.
 
@@ -92,6 +93,77 @@ Theorem insert_conflict_iff_partial : forall s t c d i,
 Proof. exact insert_conflict_iff_p. Qed.
 Print Assumptions insert_conflict_iff_partial.
 
+(* ---- refinement to the abstract specification (Model/RegistryAbs.v) ------------------------------------------
+   astate = the map  collection -> dataset type -> data id -> option dataset  (+ collection kinds, dataset types,
+   dataset definitions);  astep = the abstract operation on that map;  abs = what a row-level state means;
+   aeq = the two abstract states answer every question alike;  arun / aouts = state and outcomes of a history on the
+   abstract specification, run / outs on the row-level model.
+   honest h: every associate in h is handed refs whose dataset type and data ID are those of the dataset's existing
+   memberships at that moment (the documented precondition "resolved refs of datasets in this registry"); refs to
+   datasets that do not exist (any more) are honest, and so is every argument of every other operation. *)
+
+(* FULL SIMULATION: along every honest history the abstract map and the registry's rows report the same outcome at
+   every step and denote the same state *)
+Theorem abs_commutes : forall h, honest h = true ->
+  aeq (arun h) (abs (run h)) /\ aouts ainit h = outs init h.
+Proof. exact abs_commutes_p. Qed.
+Print Assumptions abs_commutes.
+
+(* one step from ANY reachable state, for EVERY operation with arbitrary arguments: the outcome and the next state
+   are those of the abstract operation.  Honesty of the past is needed for import only (its validation reads every
+   membership of a dataset id); for the eight other operations the state may be reached by any history. *)
+Theorem abs_commutes_step : forall h o, honest h = true \/ is_import o = false ->
+  snd (astep (abs (run h)) o) = snd (step (run h) o) /\
+  aeq (fst (astep (abs (run h)) o)) (abs (exec (run h) o)).
+Proof. exact abs_commutes_step_p. Qed.
+Print Assumptions abs_commutes_step.
+
+(* the first sentence of the property: every (collection, dataset type, data id) probe after an honest history
+   returns what the abstract model of that history holds (and a map holds at most one dataset per key) *)
+Theorem contents_eq_abstract : forall h, honest h = true -> forall c t d,
+  find (run h) c t d = a_mem (arun h) c t d.
+Proof. exact contents_eq_abstract_p. Qed.
+Print Assumptions contents_eq_abstract.
+
+Theorem definitions_eq_abstract : forall h, honest h = true -> forall i,
+  option_map (fun x => (d_type x, d_run x)) (ds_find (datasets (run h)) i) = a_def (arun h) i.
+Proof. exact alive_eq_abstract_p. Qed.
+Print Assumptions definitions_eq_abstract.
+
+(* along an honest history every membership of a dataset carries one dataset type and one data ID *)
+Theorem memberships_agree : forall h, honest h = true -> forall x y,
+  In x (tags (run h)) -> In y (tags (run h)) -> r_id x = r_id y -> r_type x = r_type y /\ r_data x = r_data y.
+Proof. intros h H. exact (proj2 (proj2 (inv_run h H))). Qed.
+Print Assumptions memberships_agree.
+
+(* a history without associate is honest, whatever its arguments *)
+Theorem no_associate_is_honest : forall h, no_assoc h = true -> honest h = true.
+Proof. intros h H. exact (no_assoc_honest_from h init H). Qed.
+Print Assumptions no_associate_is_honest.
+
+(* ---- conflict exactly when uniqueness would break: BATCH form for insertDatasets (any reachable state, any
+   batch): with valid arguments and a non-empty batch the call succeeds iff the batch names pairwise different new
+   ids and pairwise different data IDs, none of the ids is in use and none of the (run, type, data ID) keys is held;
+   otherwise it is refused with Conflict (and by refused_changes_nothing changes nothing) *)
+Theorem insert_batch_ok_iff : forall h t c items,
+  has_type (run h) t = true -> coll_type (run h) c = Some RUN ->
+  forallb (fun it => valid_d (fst it)) items = true -> items <> [] ->
+  (snd (step (run h) (Insert t c items)) = Ok <->
+   (NoDup (map snd items) /\ NoDup (map fst items) /\
+    forall d i, In (d, i) items -> alive (run h) i = false /\ find (run h) c t d = None)) /\
+  (snd (step (run h) (Insert t c items)) = Ok \/ snd (step (run h) (Insert t c items)) = Err Conflict).
+Proof. exact insert_batch_ok_iff_p. Qed.
+Print Assumptions insert_batch_ok_iff.
+
+Theorem insert_conflict_iff : forall h t c items,
+  has_type (run h) t = true -> coll_type (run h) c = Some RUN ->
+  forallb (fun it => valid_d (fst it)) items = true -> items <> [] ->
+  (snd (step (run h) (Insert t c items)) = Err Conflict <->
+   ~ (NoDup (map snd items) /\ NoDup (map fst items) /\
+      forall d i, In (d, i) items -> alive (run h) i = false /\ find (run h) c t d = None)).
+Proof. exact insert_conflict_iff_batch_p. Qed.
+Print Assumptions insert_conflict_iff.
+
 (* ---- non-vacuity: a reachable, non-trivial state and the behaviours the hypotheses talk about ------------ *)
 Definition ex_h : list op :=
   [RegisterRun 0; RegisterRun 2; RegisterTagged 1; RegisterType 0; RegisterType 1;
@@ -117,4 +189,23 @@ Proof. vm_compute. reflexivity. Qed.
 Example ex_run_membership : coll_type (run ex_h) 0 = Some RUN /\ run_of (run ex_h) 101 = Some 0.
 Proof. vm_compute. split; reflexivity. Qed.
 Example ex_pruned_nonempty : query_with_summaries (run ex_h) 1 0 0 = [(1, 101); (0, 100)].
+Proof. vm_compute. reflexivity. Qed.
+
+(* the refinement theorems are not vacuous: ex_h (which contains an associate) is honest, the abstract run holds the
+   same memberships, reports the same outcomes, and refuses the same conflicts *)
+Example ex_honest : honest ex_h = true.
+Proof. vm_compute. reflexivity. Qed.
+Example ex_honest_longer : honest (ex_h ++ [Associate 1 [Ref 110 0 0]; RemoveDatasets [100]; Import 2 [Ref 100 0 0; Ref 120 1 3];
+                                            Associate 1 [Ref 100 0 0; Ref 120 1 3]; RemoveCollection 0]) = true.
+Proof. vm_compute. reflexivity. Qed.
+Example ex_abs_mem : a_mem (arun ex_h) 1 0 0 = Some 100 /\ a_mem (arun ex_h) 1 0 1 = Some 101 /\ a_mem (arun ex_h) 2 0 0 = Some 110
+                     /\ a_mem (arun ex_h) 1 0 2 = None.
+Proof. vm_compute. repeat split; reflexivity. Qed.
+Example ex_abs_outs : aouts ainit (ex_h ++ [Associate 1 [Ref 110 0 0]]) = [OkNew; OkNew; OkNew; OkNew; OkNew; Ok; Ok; Ok; Err Conflict].
+Proof. vm_compute. reflexivity. Qed.
+Example ex_forged_not_honest : honest (ex_h ++ [Associate 1 [Ref 110 0 1]]) = false.
+Proof. vm_compute. reflexivity. Qed.
+Example ex_batch_dup_data : snd (step (run ex_h) (Insert 1 0 [(2, 130); (2, 131)])) = Err Conflict.
+Proof. vm_compute. reflexivity. Qed.
+Example ex_batch_ok : snd (step (run ex_h) (Insert 1 0 [(2, 130); (3, 131)])) = Ok.
 Proof. vm_compute. reflexivity. Qed.
